@@ -463,9 +463,16 @@ func (w *World) pickBuilt() *SegH {
 // judgePathOp applies the C17 oracle to one path-based operation.
 func (w *World) judgePathOp(op, what string, f pathFault, p string, err error, L uint64, checkComplete func()) {
 	r := w.r
+	// A merged file's size varies from run to run when two sections write data
+	// (zapx lays sections out in Go map iteration order, which moves offsets and
+	// with them varint lengths - tens of bytes on larger outputs). "The limit was
+	// below the output size, so the call must fail" is therefore only certain
+	// well below the reference size; closer to it a success is judged by the
+	// completeness check alone (length, footer, CRC, content), which a truncated
+	// file cannot pass.
 	slack := uint64(0)
 	if op == "Merge" {
-		slack = 16
+		slack = 64 + L/20
 	}
 	mustFail := f.kind != "rlimit" || f.n+slack < L
 	if err != nil {
@@ -645,6 +652,7 @@ func cancelledMerges(r *RunCtx) {
 		})
 		sim.Run()
 		r.countN("sim.steps", sim.steps)
+		r.countN("probe.sched.yield-under-lock-recoveries", sim.lockStalls)
 		r.countN("sim.switches", sim.switches)
 		for _, tk := range sim.tasks {
 			if tk.panicV != nil {
